@@ -53,6 +53,9 @@ func (g *c16Gen) opt(shorts map[string]bool, forceHidden bool) Opt {
 	}
 	if rapid.IntRange(0, 9).Draw(t, "hasDesc") < 7 {
 		o.Desc = "desc" + g.mk()
+		if rapid.IntRange(0, 7).Draw(t, "percentInDesc") == 0 {
+			o.Desc += rapid.SampledFrom([]string{" 100% sure", " %d of %s", " more than this % of the quota"}).Draw(t, "percentText")
+		}
 	}
 	if !o.Kind.IsFlag() {
 		if rapid.Bool().Draw(t, "hasVN") {
@@ -87,7 +90,7 @@ func (g *c16Gen) opt(shorts map[string]bool, forceHidden bool) Opt {
 				}
 			}
 			if len(o.Choices) == 0 && rapid.IntRange(0, 9).Draw(t, "mask") < 4 {
-				o.DefaultMask = rapid.SampledFrom([]string{"-", "MASK"}).Draw(t, "maskKind")
+				o.DefaultMask = rapid.SampledFrom([]string{"-", "MASK", "MASK", "0", "no", "false"}).Draw(t, "maskKind")
 				if o.DefaultMask == "MASK" {
 					o.DefaultMask = "mask" + g.mk()
 				}
